@@ -323,3 +323,27 @@ Proof.
   cbn [search_from]. rewrite Hm. apply search_from_none; assumption.
 Qed.
 
+
+(* ---- literal strings and alternatives ---- *)
+Lemma mx_rstr_intro : forall q i p z cc, q <> [] ->
+  mx (rstr q) (mkSt i p (q ++ z) cc) (mkSt (i + lenN q) (last_of p q) z cc).
+Proof.
+  unfold rstr. induction q as [|x q IH]; intros i p z cc Hne; [congruence|].
+  destruct q as [|y q].
+  - cbn. exists x, z. cbn. repeat split. unfold set_match, in_items. cbn. rewrite N.leb_refl. reflexivity.
+  - change (rseq (map (fun c0 : char => RLit c0) (x :: y :: q))) with (RSeq (RLit x) (rseq (map (fun c0 : char => RLit c0) (y :: q)))).
+    cbn [mx]. exists (mkSt (i + 1) (Some x) ((y :: q) ++ z) cc). split.
+    + exists x, ((y :: q) ++ z). cbn. repeat split. unfold set_match, in_items. cbn. rewrite N.leb_refl. reflexivity.
+    + specialize (IH (i + 1) (Some x) z cc ltac:(discriminate)).
+      replace (i + lenN (x :: y :: q)) with (i + 1 + lenN (y :: q)) by (cbn [lenN]; lia). exact IH.
+Qed.
+
+Lemma mx_ralt_intro : forall (l : list regex) r s s', In r l -> mx r s s' -> mx (ralt l) s s'.
+Proof.
+  induction l as [|x l IH]; intros r s s' Hin Hm; [destruct Hin|].
+  destruct l as [|y l].
+  - destruct Hin as [->|[]]. exact Hm.
+  - change (ralt (x :: y :: l)) with (RAlt x (ralt (y :: l))). cbn [mx].
+    destruct Hin as [->|Hin]; [left; exact Hm|right; eapply IH; eauto].
+Qed.
+
